@@ -206,6 +206,13 @@ def _di(E, bp, vc):
         ok2 = len(d.aistack) == 2 and d.aistack[0] == 7
     E.oblige("post:stack", z3.And(z3.BoolVal(ok1 and ok2 and d.aistack == [7]), T(got, z3.IntVal(0)) == k))
     E.oblige("post:nil-indexer", z3.BoolVal(bp.NIL_DATA_INDEXER.field_number <= 0))
+    # every indexer owns its index stack: a fresh one is empty whatever other indexers are doing (no shared default)
+    a = bp.DataIndexer(1)
+    a.index_stack_up()
+    a.index_stack_replace(4)
+    b = bp.DataIndexer(2)
+    E.oblige("post:fresh-indexer-has-own-empty-stack", z3.BoolVal(list(b.aistack) == [] and b.aistack is not a.aistack
+                                                                    and list(a.aistack) == [4]))
 
 
 def lift_bool_(x):
